@@ -437,15 +437,34 @@ fn e_reply(deps: DepsMut, env: Env, reply: Reply) -> Result<Response, StdError> 
     Ok(Response::new())
 }
 
+fn t_migrate(deps: DepsMut<MyQuery>, env: Env, cmd: Cmd) -> Result<Response<MyMsg>, StdError> {
+    let info = MessageInfo { sender: Addr::unchecked("<migrate>"), funds: vec![] };
+    run_script::<MyMsg>(deps, &env, &info, &cmd, "typed", Some(MyMsg::Ping { n: 7 }))
+}
+fn t_sudo(deps: DepsMut<MyQuery>, env: Env, cmd: Cmd) -> Result<Response<MyMsg>, StdError> {
+    let info = MessageInfo { sender: Addr::unchecked("<sudo>"), funds: vec![] };
+    run_script::<MyMsg>(deps, &env, &info, &cmd, "typed", Some(MyMsg::Ping { n: 7 }))
+}
+fn e_migrate(deps: DepsMut, env: Env, cmd: Cmd) -> Result<Response, StdError> {
+    let info = MessageInfo { sender: Addr::unchecked("<migrate>"), funds: vec![] };
+    run_script::<Empty>(deps, &env, &info, &cmd, "lifted", Some(Empty {}))
+}
+fn e_sudo(deps: DepsMut, env: Env, cmd: Cmd) -> Result<Response, StdError> {
+    let info = MessageInfo { sender: Addr::unchecked("<sudo>"), funds: vec![] };
+    run_script::<Empty>(deps, &env, &info, &cmd, "lifted", Some(Empty {}))
+}
+
 fn typed_contract() -> Box<dyn Contract<MyMsg, MyQuery>> {
-    Box::new(ContractWrapper::new(t_execute, t_instantiate, t_query).with_reply(t_reply))
+    Box::new(ContractWrapper::new(t_execute, t_instantiate, t_query).with_reply(t_reply).with_migrate(t_migrate).with_sudo(t_sudo))
 }
 fn lifted_contract() -> Box<dyn Contract<MyMsg, MyQuery>> {
-    Box::new(ContractWrapper::new_with_empty(e_execute, e_instantiate, e_query).with_reply_empty(e_reply))
+    Box::new(ContractWrapper::new_with_empty(e_execute, e_instantiate, e_query).with_reply_empty(e_reply).with_migrate_empty(e_migrate).with_sudo_empty(e_sudo))
 }
 
 struct RWorld {
     app: RApp,
+    code_typed: u64,
+    code_lifted: u64,
     user: String,
     recipient: String,
     typed: String,
@@ -475,7 +494,7 @@ fn world() -> RWorld {
         });
     let ct = app.store_code(typed_contract());
     let cl = app.store_code(lifted_contract());
-    let mk = |app: &mut RApp, code: u64, label: &str| app.instantiate_contract(code, Addr::unchecked(&user), &Empty {}, &[], label, None).unwrap().into_string();
+    let mk = |app: &mut RApp, code: u64, label: &str| app.instantiate_contract(code, Addr::unchecked(&user), &Empty {}, &[], label, Some(user.clone())).unwrap().into_string();
     let typed = mk(&mut app, ct, "typed");
     let lifted = mk(&mut app, cl, "lifted");
     let typed2 = mk(&mut app, ct, "typed2");
@@ -486,14 +505,15 @@ fn world() -> RWorld {
     }
     let genesis = app.storage().clone();
     LOG.with(|l| l.borrow_mut().clear());
-    RWorld { app, user, recipient, typed, lifted, typed2, callee, genesis }
+    RWorld { app, code_typed: ct, code_lifted: cl, user, recipient, typed, lifted, typed2, callee, genesis }
 }
 
 #[derive(Clone, Debug)]
 struct Case {
     fail_mask: u32,
     kind: &'static str,
-    /// 0 top level, 1 typed sub, 2 lifted sub, 3 deep typed (typed2 -> typed), 4 deep lifted (typed2 -> lifted)
+    /// 0 top level, 1 typed sub, 2 lifted sub, 3 deep typed (typed2 -> typed), 4 deep lifted (typed2 -> lifted),
+    /// 5 / 6 emitted by the migrate entry point (typed / lifted), 7 / 8 by the sudo entry point (typed / lifted)
     origin: u8,
     mode: u8,
     with_earlier: bool,
@@ -502,7 +522,7 @@ struct Case {
 
 fn case_json(c: &Case) -> Value {
     json!({"engine": "route", "failing_modules": MODS.iter().copied().chain(["wasm (vetoes the message under test)"]).enumerate().filter(|(i, _)| c.fail_mask & (1 << i) != 0).map(|(_, m)| m).collect::<Vec<_>>(), "fail_mask": c.fail_mask,
-           "message_kind": c.kind, "origin": (["top-level", "sub-message of a contract typed for the chain's custom message", "sub-message of an Empty-typed contract lifted by new_with_empty", "two levels deep, typed", "two levels deep, lifted"][c.origin as usize]),
+           "message_kind": c.kind, "origin": (["top-level", "sub-message of a contract typed for the chain's custom message", "sub-message of an Empty-typed contract lifted by new_with_empty", "two levels deep, typed", "two levels deep, lifted", "emitted by the migrate entry point of a typed contract", "emitted by the migrate entry point of a lifted contract", "emitted by the sudo entry point of a typed contract", "emitted by the sudo entry point of a lifted contract"][c.origin as usize]),
            "origin_code": c.origin, "reply_on": (["never", "success", "error", "always"][c.mode as usize]), "mode": c.mode, "after_earlier_call_and_write": c.with_earlier, "wasm_callee_fails": c.callee_fails})
 }
 
@@ -511,8 +531,8 @@ fn run_case(ctx: &Ctx, w: &mut RWorld, c: &Case) -> u64 {
     LOG.with(|l| l.borrow_mut().clear());
     FAIL.with(|f| *f.borrow_mut() = c.fail_mask);
     let emitter = match c.origin {
-        1 | 3 => w.typed.clone(),
-        2 | 4 => w.lifted.clone(),
+        1 | 3 | 5 | 7 => w.typed.clone(),
+        2 | 4 | 6 | 8 => w.lifted.clone(),
         _ => w.user.clone(),
     };
     SCRIPT.with(|s| {
@@ -523,16 +543,18 @@ fn run_case(ctx: &Ctx, w: &mut RWorld, c: &Case) -> u64 {
     let res = catch(|| match c.origin {
         0 => w.app.execute(user.clone(), msg_of::<MyMsg>(c.kind, Some(MyMsg::Ping { n: 7 }), &w.callee, &w.recipient)),
         1 | 2 => w.app.execute_contract(user.clone(), Addr::unchecked(&emitter), &Cmd { script: 0 }, &[]),
+        5 | 6 => w.app.migrate_contract(user.clone(), Addr::unchecked(&emitter), &Cmd { script: 0 }, if c.origin == 5 { w.code_typed } else { w.code_lifted }),
+        7 | 8 => w.app.wasm_sudo(Addr::unchecked(&emitter), &Cmd { script: 0 }),
         _ => w.app.execute_contract(user.clone(), Addr::unchecked(&w.typed2), &Cmd { script: 1 }, &[]),
     });
     FAIL.with(|f| *f.borrow_mut() = 0);
     let logv: Vec<Rec> = LOG.with(|l| std::mem::take(&mut *l.borrow_mut()));
     let cj = || case_json(c);
-    let lifted_custom = c.kind == "custom" && (c.origin == 2 || c.origin == 4);
+    let lifted_custom = c.kind == "custom" && matches!(c.origin, 2 | 4 | 6 | 8);
     let res = match res {
         Ok(r) => r,
         Err(p) => {
-            let class = if lifted_custom { "c17:panic:custom-message-from-lifted-contract".to_string() } else { format!("c17:panic:{}-message-from-{}", c.kind, if c.origin == 2 || c.origin == 4 { "lifted-contract" } else { "other-origin" }) };
+            let class = if lifted_custom { "c17:panic:custom-message-from-lifted-contract".to_string() } else { format!("c17:panic:{}-message-from-{}", c.kind, if matches!(c.origin, 2 | 4 | 6 | 8) { "lifted-contract" } else { "other-origin" }) };
             ctx.violation(&class, json!({"case": cj(), "panic": p, "expected": "the message is handed to the configured module"}));
             return 1;
         }
@@ -547,7 +569,8 @@ fn run_case(ctx: &Ctx, w: &mut RWorld, c: &Case) -> u64 {
     let module_recs: Vec<&Rec> = logv.iter().filter(|r| r.module != "contract" && r.module != "wasm").collect();
     // every wasm message of the transaction (the top-level call, relays, earlier/later siblings and
     // the message under test) must have passed through the configured wasm module exactly once
-    let contract_runs = logv.iter().filter(|r| r.module == "contract" && r.op != "reply").count();
+    // (a migrate is a wasm execute-path message too; a sudo does not pass through Wasm::execute)
+    let contract_runs = logv.iter().filter(|r| r.module == "contract" && r.op != "reply").count() - (c.origin >= 7) as usize;
     let wasm_execs: Vec<&Rec> = logv.iter().filter(|r| r.module == "wasm" && r.op == "execute").collect();
     let vetoed = c.kind == "wasm" && c.fail_mask & (1 << 7) != 0;
     if wasm_execs.len() != contract_runs + vetoed as usize {
@@ -697,7 +720,7 @@ fn cases(tier: Tier) -> Vec<Case> {
     };
     for mask in masks {
         for kind in KINDS {
-            for origin in 0..5u8 {
+            for origin in 0..9u8 {
                 let modes: Vec<u8> = if origin == 0 { vec![0] } else { vec![0, 1, 2, 3] };
                 for mode in modes {
                     for with_earlier in [false, true] {
@@ -752,7 +775,7 @@ pub fn run_c17(ctx: &Ctx) -> i32 {
         "message_cases": cs.len(), "query_cases": qcases.len(),
         "switch_combinations": ctx.tier.pick("18 (none, all, each single module, all but one)", "all 256"),
         "kinds": KINDS, "query_kinds": QKINDS,
-        "origins": ["top-level", "sub-message of typed contract", "sub-message of lifted Empty-typed contract", "two levels deep (typed)", "two levels deep (lifted)"],
+        "origins": ["top-level", "sub-message of typed contract", "sub-message of lifted Empty-typed contract", "two levels deep (typed)", "two levels deep (lifted)", "from migrate (typed / lifted)", "from sudo (typed / lifted)"],
         "caps_hit": [],
         "samples": [case_json(&cs[cs.len() / 3]), case_json(&cs[cs.len() / 2])],
     });
